@@ -34,9 +34,9 @@ WIDE = {"F64", "I64", "PyInt", "PyFloat"}
 EDGE = {"BF16": 2 ** 8, "F16": 2 ** 11, "F32": 2 ** 24, "F64": 2 ** 53, "PyFloat": 2 ** 53, "I8": 2 ** 7, "U8": 2 ** 8,
         "I16": 2 ** 15, "I32": 2 ** 31, "I64": 2 ** 63, "PyInt": 2 ** 63}
 BITS = {"BF16": 8, "F16": 11, "F32": 24, "F64": 53, "PyFloat": 53}
-KS = [8, 11, 15, 24, 31, 40, 52]
+KS = [7, 8, 11, 15, 24, 31, 40, 52]
 # the kinds that first lose 2^k + 1 at probe k (mirrors AccPath.edge: lost iff edge <= 2^k)
-FIRST_LOST = {8: ["BF16", "U8", "I8"], 11: ["F16"], 15: ["I16"], 24: ["F32"], 31: ["I32"]}
+FIRST_LOST = {7: ["I8"], 8: ["BF16", "U8"], 11: ["F16"], 15: ["I16"], 24: ["F32"], 31: ["I32"]}
 LIMIT = 2 ** 53
 
 
@@ -145,6 +145,41 @@ def generic_layouts():
                     return tuple(a), k
                 arg = f"arg{key}" if where == "arg" else key
                 out.append(Layout(f"{label}:{arg}:{how}", cname, kw, cls, build, "basecalls"))
+    return out
+
+
+def synthetic_layouts():
+    """[(layout, expected effective kind)]: a float64 accumulator fed through ONE cast to each modelled tensor kind.
+    Not torcheval code: the self-test of the classifier, and the only place where round_kind for the kinds that
+    torcheval does not use on a path today (float16, bfloat16, int8 ... int32) is compared with torch itself."""
+    from torcheval.metrics.metric import Metric
+
+    class CastThenAdd(Metric):
+        def __init__(self, via="float32"):
+            super().__init__()
+            self.via = getattr(torch, via)
+            self._add_state("total", torch.tensor(0.0, dtype=f64))
+
+        @torch.inference_mode()
+        def update(self, x):
+            self.total += x.to(self.via).to(f64).sum()
+            return self
+
+        def compute(self):
+            return self.total
+
+        def merge_state(self, metrics):
+            for m in metrics:
+                self.total += m.total
+            return self
+
+    out = []
+    for dt, kind in KIND.items():
+        via = str(dt).replace("torch.", "")
+        # float -> integer conversion of an out-of-range value is undefined in C; integer kinds are fed int64 data
+        how = f64 if dt.is_floating_point else i64
+        out.append((Layout(f"CastThenAdd({via})", "CastThenAdd", {"via": via}, CastThenAdd,
+                           lambda v, how=how: ((torch.tensor([v], dtype=how),), {}), "synthetic"), kind))
     return out
 
 
